@@ -95,6 +95,13 @@ def _impl(tier, seed, search):
                 if ok:
                     L.close('unitvec(float32)', r[0], v64 / np.linalg.norm(v64), TOL, 1.0, dict(v=v64), what='unitvec of a float32 vector is not the unit vector to 1e-12', sig='unitvec:float32'); L.close('unitvec_norm(float32)', r[1], v64 / np.linalg.norm(v64), TOL, 1.0, dict(v=v64), sig='unitvec:float32')
                     L.close('unitvec(float32):idempotent', r[2], r[0], TOL, 1.0, dict(v=v64), sig='unitvec:float32')
+        # quaternions with one component tiny relative to the others (1e-12 .. 1e-8): a component, not a rounding residue — the direction is
+        # kept to 1e-12 and an already unit value comes back unchanged
+        if i % 4 == 2:
+            qt_ = g.normal(size=4); kt_ = int(g.integers(4)); qt_[kt_] = float(g.choice([-1, 1])) * 10.0 ** g.uniform(-12, -8) * float(np.linalg.norm(qt_)); qtu_ = qt_ / np.linalg.norm(qt_); magt_ = 10.0 ** g.uniform(-3, 3)
+            for nm_, call_ in (('base.unit', lambda: b.unit(qt_ * magt_)), ('Quaternion.unit', lambda: Quaternion(qt_ * magt_).unit().vec), ('UnitQuaternion(v)', lambda: UnitQuaternion(qt_ * magt_).vec), ('base.unit(unit)', lambda: b.unit(qtu_)), ('UnitQuaternion(unit)', lambda: UnitQuaternion(qtu_).vec)):
+                ok, r = L.noraise(f'{nm_}(tiny component)', call_, dict(q=qt_, k=kt_), f'{nm_} of a quaternion with one tiny component')
+                if ok: L.close(f'{nm_}(tiny component)', np.asarray(r, float), qtu_, TOL, 1.0, dict(q=qt_, k=kt_), what=f'{nm_} changes the direction of a quaternion that has one comparatively tiny component', sig='unit:tiny-component')
         # unit() of objects holding 1 .. 5 values, among them the quaternion basis (whose stacked rows happen to form a valid 4x4 matrix)
         if i % 16 == 3:
             for nq_ in (1, 2, 3, 4, 5):
